@@ -35,7 +35,7 @@ def parse_runs(text):
         if not t:
             continue
         if t[0] == "begin" and len(t) == 3 and t[1].isdigit() and t[2].isdigit():
-            cur = {"regs": [], "calls": [], "lines": [], "ended": False}
+            cur = {"regs": [], "calls": [], "lines": [], "ended": False, "bodypanic": False, "recs": [], "endflag": None}
             runs[(int(t[1]), int(t[2]))] = cur
             continue
         if cur is None:
@@ -50,8 +50,13 @@ def parse_runs(text):
             cur["regs"].append((num(t[2]), num(t[3])))
         elif t[0] == "call" and len(t) == 4:
             cur["calls"].append((num(t[2]), num(t[3])))
+        elif t[0] == "bodypanic":
+            cur["bodypanic"] = True
+        elif t[0] == "recovered" and len(t) == 2:
+            cur["recs"].append(t[1] == "true")
         elif t[0] == "end":
             cur["ended"] = True
+            cur["endflag"] = (t[-1] == "true")
             cur = None
     return runs
 
@@ -111,6 +116,7 @@ def run(ck):
     interesting = 0
     cases = []        # coq terms
     case_meta = []
+    ocases, ometa = [], []
     kinds_seen = collections.Counter()
     samples = []
     for pi in range(nprog):
@@ -215,6 +221,15 @@ def run(ck):
                 "; ".join("(%d%%nat, %d%%N)" % (pos, p + 10) for pos, p in regs),
                 "; ".join("(%d%%nat, %s)" % (pos, "Some %d%%N" % (p + 10) if (pos < len(sh) and sh[pos]["has_node"]) else "None") for pos, p in obs))
             cases.append(term)
+            beh = getattr(fns[fn], "behaviour", {})
+            kinds = "[" + "; ".join(beh.get(j_of.get(pos, -1), "DPlain") for pos in range(len(sh))) + "]"
+            if lr.get("endflag") is not None:
+                ocases.append("((%s, %s, [%s], %s), ([%s], %s))" % (
+                    coq_shape(sh), kinds, "; ".join("(%d%%nat, %d%%N)" % (pos, p + 10) for pos, p in regs),
+                    "true" if lr["bodypanic"] else "false",
+                    "; ".join("true" if x else "false" for x in lr["recs"]), "true" if lr["endflag"] else "false"))
+                ometa.append({"seed": seed, "fn": fn, "in": inp, "recs": lr["recs"], "end_recovered": lr["endflag"], "bodypanic": lr["bodypanic"],
+                              "cls": classify(sh, pos_of, lr["regs"])})
             same = lr["lines"] == gr["lines"]
             case_meta.append({"seed": seed, "fn": fn, "in": inp, "same_as_go": same, "shape": sh, "regs": lr["regs"],
                               "llgo_calls": lr["calls"], "go_calls": gr["calls"],
@@ -239,6 +254,15 @@ def run(ck):
         key = m["cls"] if (m["cls"] and (i not in bad or m["cls"] == "defer-lifo-broken-by-block-compile-order")) else "defer-trace-differs"
         nknown[key] += 1
         ck.violation(key, "f%d(%d) (generator seed %d): deferred calls under llgo %s, Go %s" % (m["fn"], m["in"], m["seed"], m["llgo_calls"][:8], m["go_calls"][:8]), m)
+    # recover / re-panic outcomes predicted by the model from the executed defers and the body's panic
+    if ocases:
+        obad = ck.coq_mismatches(hdr, ocases, "(fun c => machine_outcome (fst (fst (fst c))) (snd (fst (fst c))) (snd (fst c)) (snd c))",
+                                 "prod_eqb (list_eqb Bool.eqb) Bool.eqb", "c04_outcome")
+        for i in obad:
+            m = ometa[i]
+            if m["cls"]:
+                continue          # premise violated: covered by the call-sequence classification above
+            ck.correspondence_broken("C04.outcome", {"case": m})
     ck.phase("model compared")
 
     # fixed probes
@@ -276,7 +300,7 @@ def run(ck):
                 ck.violation(key, "probe %s: llgo %s vs go %s" % (name, got, want), {"probe": name, "llgo": got, "go": want, "rc": a[0]})
     ck.phase("probes done")
     ck.add_cov(evaluations=total_runs + nprobe, nontrivial=interesting, samples=samples,
-               runs=total_runs, runs_with_2plus_defers=interesting, stmt_kinds=dict(kinds_seen), differing_runs=dict(nknown))
+               runs=total_runs, runs_with_2plus_defers=interesting, outcome_cases=len(ocases), outcome_cases_with_recover=sum(1 for m in ometa if m['recs']), outcome_cases_body_panics=sum(1 for m in ometa if m['bodypanic']), stmt_kinds=dict(kinds_seen), differing_runs=dict(nknown))
     ck.cov["rule"] = ("generated functions x input bit-vectors (each run = one dynamic path); non-trivial = runs that executed >= 2 defer statements; "
                       "every run compared llgo vs go (trace) and llgo vs Coq machine (calls)")
     return ck.finish()
